@@ -48,9 +48,13 @@ var c06Lens = []int{0, 1, 3, 7, 31, 32, 33, 255, 256, 257, 511, 2047, 2048, 2049
 
 // c06Type builds a type aimed at the allocator: mixed alignments and sizes.
 func c06Type(r *gen.Rand) *schema.Struct {
-	switch r.Intn(4) {
+	switch r.Intn(6) {
 	case 0:
 		return gen.Zoo(&zoo.Wide{})
+	case 4, 5:
+		// any cell of the shared corpus: every container-of-container combination
+		// (list<map>, set<list>, map<k:set>, ...) and the static zoo types
+		return encCase(nil, r, r.Intn(encEnumerated)).S
 	case 1:
 		tc := gen.DefaultTypeCfg()
 		tc.BigIDs = false
